@@ -63,6 +63,7 @@ type nodeSpec struct {
 	col, row, w, h int
 	z              int
 	children       []*nodeSpec
+	pass           bool // a controller: Draw hands back its only child's surface unchanged
 }
 
 type node struct {
@@ -181,6 +182,9 @@ func (n *node) Draw(ctx vxfw.DrawContext) (vxfw.Surface, error) {
 	if n.spec.name == "root" {
 		n.wd.draws++
 	}
+	if n.spec.pass {
+		return n.kids[0].Draw(ctx)
+	}
 	var self vxfw.Widget = n.wd.nodes[n.spec.name]
 	s := vxfw.NewSurface(uint16(n.spec.w), uint16(n.spec.h), self)
 	for i, c := range n.spec.children {
@@ -228,6 +232,22 @@ type tree struct {
 	name    string
 	root    *nodeSpec
 	overlap bool
+}
+
+// passTrees: the widget given to the App is a controller that draws nothing of its own and returns its child's
+// surface, so the root of the frame's surface tree belongs to another widget. It is still the first to capture and
+// the last to bubble for key and custom events (mouse events follow the surfaces and are not judged here).
+func passTrees() []tree {
+	mk := func(name string, col, row, w, h, z int, kids ...*nodeSpec) *nodeSpec {
+		return &nodeSpec{name: name, col: col, row: row, w: w, h: h, z: z, children: kids}
+	}
+	ctl := func(kid *nodeSpec) *nodeSpec {
+		return &nodeSpec{name: "ctl", w: kid.w, h: kid.h, children: []*nodeSpec{kid}, pass: true}
+	}
+	return []tree{
+		{"ctl>root", ctl(mk("root", 0, 0, 5, 3, 0)), false},
+		{"ctl>root(A(C))", ctl(mk("root", 0, 0, 5, 3, 0, mk("A", 0, 0, 3, 2, 0, mk("C", 1, 0, 2, 1, 0)))), false},
+	}
 }
 
 func trees() []tree {
@@ -402,7 +422,7 @@ func mouseBytes(col, row int, motion bool) string {
 
 func routingSweep(idx, n int) {
 	k := 0
-	for _, t := range trees() {
+	for _, t := range append(trees(), passTrees()...) {
 		ns := names(t.root)
 		for mask := 0; mask < 1<<len(ns); mask++ {
 			k++
@@ -453,6 +473,10 @@ func routingSweep(idx, n int) {
 						}
 					}
 				}
+			}
+			if t.root.pass {
+				rig.Stop()
+				continue
 			}
 			// mouse routing at every screen cell (focus irrelevant)
 			wd.focus("root")
